@@ -27,10 +27,14 @@ def budget_s(tier):
     return 70 if tier == "quick" else 600
 
 
-def _set_script(draw, start, end, n):
-    """every cycle toggles a few DISTINCT elements once each (cancelling pairs within a cycle are C05's subject)."""
+def _set_script(draw, start, end, n, empty_first=False):
+    """every cycle toggles a few DISTINCT elements once each (cancelling pairs within a cycle are C05's subject).
+    empty_first: the very first write is the empty collection (a tick that only makes the output valid)."""
     live, out = set(), []
     for t in draw(gen.time_set(start, end - 1, 1, n)):
+        if empty_first and not out:
+            out.append([t, [{"k": "S", "ops": [["touch"]]}]])
+            continue
         ops = []
         for e in draw(st.lists(st.integers(0, 6), min_size=1, max_size=3, unique=True)):
             if e in live:
@@ -43,10 +47,13 @@ def _set_script(draw, start, end, n):
     return out
 
 
-def _dict_script(draw, start, end, n):
+def _dict_script(draw, start, end, n, empty_first=False):
     """every cycle touches a few DISTINCT keys once each: set (new or update) or erase of a live key."""
     live, out = set(), []
     for t in draw(gen.time_set(start, end - 1, 1, n)):
+        if empty_first and not out:
+            out.append([t, [{"k": "D", "ops": [["touch"]]}]])
+            continue
         ops = []
         for e in draw(st.lists(st.integers(0, 5), min_size=1, max_size=3, unique=True)):
             if e in live and draw(st.integers(0, 2)) == 0:
@@ -99,9 +106,9 @@ def loops(draw, start, end, big):
             if kind == "relay_int":
                 script = draw(gen.int_script(start, end - 1, max_size=9 if big else 6, min_size=1))
             elif kind == "relay_set":
-                script = _set_script(draw, start, end, 7 if big else 5)
+                script = _set_script(draw, start, end, 7 if big else 5, empty_first=draw(st.integers(0, 2)) == 0)
             else:
-                script = _dict_script(draw, start, end, 7 if big else 5)
+                script = _dict_script(draw, start, end, 7 if big else 5, empty_first=draw(st.integers(0, 2)) == 0)
             stmts.append({"id": w, "op": "src", "schema": schema, "script": script})
             fbs = {"id": fb, "op": "fb", "schema": schema}
             if init is not None and kind == "relay_int":
@@ -198,6 +205,8 @@ def check(case, ctx) -> Result:
                 if got != [(t, o) for (t, _, o) in exp]:
                     res.violations.append(Viol("loop_values_differ", f"node {lbl}: evaluations (t, out) {got[:10]} but the delay-one model gives {[(t, o) for (t, _, o) in exp][:10]}"))
                     break
+    if '"touch"' in __import__("json").dumps(prog):
+        res.labels.append("first_write_is_empty_collection")
     if back_to_back:
         res.labels.append("back_to_back")
     if multi:
